@@ -23,6 +23,8 @@ ASSUMPTIONS = [
     'hashlib.md5 is an injective function of the written byte sequence (contract stub); bodies are sequences of '
     'chunks with symbolic lengths, a zero-length chunk is falsy',
     'the discrete choices are enumerated by the solver (bounded-exhaustive in the number of requests)',
+    'round 8: a fourth checksum-file behaviour, a wrong checksum that is a strict prefix of the right digest (truncated file); model digests '
+    'are lower-case strings without blanks',
 ]
 STUBS = ['ProgressReporter (no-op in the symbolic run; real in replays)', 'requests.get/head (scripted responses)', 'hashlib.md5 (injective)', 'open/Path (virtual file system)']
 OUTSIDE = ['real HTTP and real MD5 (met in replays: real hashlib, real files, fake requests module)',
@@ -107,11 +109,14 @@ class World(object):
             self.bodies[name] = body
             return _Resp(200, url, chunks=body)
         if url == URL + '.md5':
-            k = self.pick('md5_%d' % self.nreq, ['correct', 'wrong', 'missing'])
+            k = self.pick('md5_%d' % self.nreq, ['correct', 'wrong', 'truncated', 'missing'] if getattr(self, 'trunc', True)
+                          else ['correct', 'wrong', 'missing'])
             self.served.append(('md5', k))
             if k == 'missing':
                 return _Resp(404, url)
             digest = md5_of(self.good_id()) if k == 'correct' else md5_of(('W',))
+            if k == 'truncated':      # a wrong checksum that is a strict prefix of the right one (round 8)
+                digest = md5_of(self.good_id())[:-2]
             return _Resp(200, url, text='%s  data.bin\n' % digest)
         raise AssertionError('unexpected url %r' % url)
 
@@ -125,7 +130,9 @@ class World(object):
 
 
 def md5_of(cid):
-    return 'md5<%s>' % ','.join('%s%s' % p for p in cid) if cid != ('W',) else 'md5<wrong>'
+    # lower-case and free of blanks, like a hex digest (invariant under str.strip/str.lower); body names differ
+    # case-insensitively, so the rendering stays injective
+    return ('md5<%s>' % ','.join('%s%s' % p for p in cid)).lower() if cid != ('W',) else 'md5<wrong>'
 
 
 class _Md5(object):
@@ -211,7 +218,10 @@ def configs(tier):
     out = []
     for prior in ('absent', 'valid', 'corrupt'):
         for nch in ((1, 2, 3) if tier == 'quick' else (1, 2, 3, 4)):
-            out.append({'prior': prior, 'nchunks': nch, 'max_requests': 8 if tier == 'quick' else 10})
+            out.append({'prior': prior, 'nchunks': nch, 'max_requests': 8 if tier == 'quick' else 10,
+                        'trunc': tier == 'quick'})
+    if tier != 'quick':     # the truncated-checksum behaviour is explored with the quick tier's script length
+        out += configs('quick')
     return out
 
 
@@ -260,6 +270,7 @@ def run_config(cfg, e):
             lens.append((name, v))
             return v
         w = World(pick, mklen, cfg['nchunks'], cfg['max_requests'])
+        w.trunc = cfg.get('trunc', True)
         holder['w'] = w
         # the good body has some content
         e.assume(sor(*[c.length > 0 for c in w.good]))
@@ -349,6 +360,8 @@ def replay(case):
         if k == 'missing':
             return R(404, url)
         dg = hashlib.md5(b''.join(good)).hexdigest() if k == 'correct' else '0' * 32
+        if k == 'truncated':
+            dg = hashlib.md5(b''.join(good)).hexdigest()[:8]
         return R(200, url, text='%s  data.bin\n' % dg)
 
     def head(url):
